@@ -20,7 +20,7 @@ type siteJSON struct {
 }
 
 func writeEvidence(tier string, seed uint64, digest string, info map[string]interface{}, ii instrInfo, recs []Record, cov *covRec,
-	det detResult, buildS, simWall, wall float64, nviol, workers, processes int) {
+	det detResult, buildS, simWall, wall float64, nviol, workers, processes, coldChecked int) {
 	var sj siteJSON
 	if b, err := os.ReadFile(filepath.Join(scratch, "sites.json")); err == nil {
 		json.Unmarshal(b, &sj)
@@ -201,6 +201,7 @@ func writeEvidence(tier string, seed uint64, digest string, info map[string]inte
 			"runs_simulated_before_any_sequential_baseline": coldFirst,
 			"worker_processes_each_starting_cold":           processes,
 			"free_running_mode":                             freeRun,
+			"cold_order_oracle_runs":                        coldChecked,
 			"runs_by_mode":                                  byMode,
 			"runs_by_kind":                                  byKind,
 			"runs_by_preemption_target_k":                   byK,
